@@ -30,7 +30,17 @@ def sonrs(mins, code="0"):
     return s
 
 
+_CACHE = {}
+
+
 def profile(mins, url, dtprofup="20200101000000.000[+0:UTC]", status="0", with_profrs=True):
+    key = (id(mins), url, status, with_profrs)
+    if key not in _CACHE:
+        _CACHE[key] = _profile(mins, url, "@@DTPROFUP@@", status, with_profrs)
+    return _CACHE[key].replace("@@DTPROFUP@@", dtprofup)
+
+
+def _profile(mins, url, dtprofup, status, with_profrs):
     ofx = ["OFX", None, [sonrs(mins)]]
     trn = copy.deepcopy(mins["PROFTRNRS"])
     setleaf(trn, ["STATUS", "CODE"], status)
@@ -80,4 +90,7 @@ def acctinfo(mins, infos):
 
 
 def empty_response(mins):
-    return render(["OFX", None, [sonrs(mins)]])
+    key = (id(mins), "empty")
+    if key not in _CACHE:
+        _CACHE[key] = render(["OFX", None, [sonrs(mins)]])
+    return _CACHE[key]
